@@ -9,15 +9,17 @@ the subclass T2).
 Model: cls -> instance label | none.
 """
 
+import abc
 import collections
 import itertools
 
 import egsim  # noqa: F401
 from egsim import engine, gen
+from egsim.seams import InjectedFault
 from egsim.props.c17 import ARG_POOL, decode_arg
 from edgegraph.structure import singleton
 
-CLASS_NAMES = ["T", "T1", "T2", "S", "F", "Z"]
+CLASS_NAMES = ["T", "T1", "T2", "S", "F", "Z", "D"]
 
 
 def make_classes(hook=None):
@@ -35,6 +37,9 @@ def make_classes(hook=None):
             if fn is not None:
                 hook["fn"] = None  # one shot: user code in the middle of a construction
                 fn(self)
+            if hook.get("raise"):
+                hook["raise"] = False
+                raise InjectedFault("__init__ failed")
 
         d = {"__init__": __init__, "__qualname__": name}
         d.update(extra)
@@ -48,7 +53,13 @@ def make_classes(hook=None):
     # instances with their own truth value (an empty registry-like singleton)
     F = M("F", (object,), body("F", __bool__=lambda self: False))
     Z = M("Z", (object,), body("Z", __len__=lambda self: 0))
-    return {"T": T, "T1": T1, "T2": T2, "S": S, "F": F, "Z": Z}
+
+    # a class whose metaclass DERIVES from TrueSingleton (e.g. combined with ABCMeta)
+    class DerivedMeta(abc.ABCMeta, singleton.TrueSingleton):
+        pass
+
+    D = DerivedMeta("D", (object,), body("D"))
+    return {"T": T, "T1": T1, "T2": T2, "S": S, "F": F, "Z": Z, "D": D}
 
 
 class St:
@@ -117,6 +128,8 @@ class C18(engine.Property):
         "user-code-during-construction:clear",
         "user-code-during-construction:clear_all",
         "user-code-during-construction:construct",
+        "construction-failed-in-init",
+        "derived-metaclass-class-cleared-while-others-live",
     ]
 
     def make_config(self, rng):
@@ -130,6 +143,7 @@ class C18(engine.Property):
             # does the caller keep the objects it was given?
             "hold_refs": rng.random() < 0.6,
             "p_during": rng.choice([0.0, 0.0, 0.1, 0.3]),
+            "p_init_fails": rng.choice([0.0, 0.0, 0.08, 0.2]),
         }
 
     def start(self, cfg):
@@ -152,7 +166,9 @@ class C18(engine.Property):
             "kwargs": kwargs,
             "new": st.namer.new("i"),
         }
-        if rng.random() < cfg.get("p_during", 0.0):
+        if rng.random() < cfg.get("p_init_fails", 0.0):
+            op["init_fails"] = True
+        elif rng.random() < cfg.get("p_during", 0.0):
             r = rng.random()
             other = rng.choice(cfg["classes"])
             if r < 0.35:
@@ -189,6 +205,21 @@ class C18(engine.Property):
                 s["probe:subclass-constructed-while-parent-live"] += 1
             if cls == "T" and (st.model["T1"] or st.model["T2"]):
                 s["probe:parent-constructed-while-subclass-live"] += 1
+            if op.get("init_fails") and live is None:
+                s["fault:init-raises"] += 1
+                s["probe:construction-failed-in-init"] += 1
+                st.hook["raise"] = True
+                try:
+                    klass(*args, **kwargs)
+                    out = {"ret": "returned"}
+                except Exception as exc:  # pylint: disable=broad-except
+                    out = {"exc": type(exc).__name__}
+                st.hook["raise"] = False
+                if "exc" not in out:
+                    return out, engine.viol("C18/failed-init-swallowed", {"op": op})
+                # nothing was constructed: the class still has no instance, and
+                # every other class keeps its own
+                return out, self._recheck(st, op) or self._still_empty(st, op, cls)
             during = op.get("during")
             if during is not None and live is None and during.get("cls", cls) in st.classes:
                 s["probe:user-code-during-construction:" + during["op"]] += 1
@@ -249,6 +280,8 @@ class C18(engine.Property):
                 s["probe:clear-class-without-instance"] += 1
             if any(st.model[c] for c in CLASS_NAMES if c != cls):
                 s["probe:targeted-clear-with-others-live"] += 1
+                if cls == "D":
+                    s["probe:derived-metaclass-class-cleared-while-others-live"] += 1
             try:
                 singleton.clear_true_singleton(st.classes[cls])
             except Exception as exc:  # pylint: disable=broad-except
@@ -301,6 +334,23 @@ class C18(engine.Property):
             st.tok2lab[st.token[lab]] = lab
             st.model[d["cls"]] = lab
             st.first_args[lab] = ((), {})
+
+    def _still_empty(self, st, op, cls):
+        """After a failed construction the next one must construct afresh."""
+        obj = st.classes[cls]("probe")
+        ok = obj.init_count == 1 and obj.init_args == (("probe",), {}) and obj.token not in st.tok2lab
+        # keep the model in step with what this observation did
+        lab = "probe:" + op["new"]
+        st.inst[lab] = obj if st.hold else None
+        st.token[lab] = obj.token
+        st.tok2lab[obj.token] = lab
+        st.model[cls] = lab
+        st.first_args[lab] = (("probe",), {})
+        if not ok:
+            return engine.viol(
+                "C18/failed-construction-left-an-instance", {"op": op, "init_count": obj.init_count}
+            )
+        return None
 
     def _recheck(self, st, op):
         """
